@@ -571,6 +571,9 @@ class DepEngine(object):
                 v = self.lookup_global(node.id)
             return v
         if isinstance(node, ast.Attribute):
+            if isinstance(node.value, ast.Name) and env.get(node.value.id) is None and (
+                    node.value.id in self.module.imports or node.value.id in ('inspect', 'os', 'sys', 'copy', 'functools', 'itertools', 'collections')):
+                return AV((), ['LIBF:' + node.attr])        # a library function taken as a value (getspec = inspect.getfullargspec)
             b = self.ev(node.value, env, ctx)
             return self.field(b, node.attr)
         if isinstance(node, ast.Subscript):
@@ -874,6 +877,12 @@ class DepEngine(object):
             if env.get(f.id) is None:
                 return self.named_call(node, f.id, args, kws, alld, allv, env, ctx, None)
             # calling a value held in a variable
+            out = None
+            for L in fav.v:
+                if L.startswith('LIBF:'):
+                    out = join(out, self.named_call(node, L[5:], args, kws, alld | fav.d, allv, env, ctx, None))
+            if out is not None:
+                return out
             return AV(fav.d | alld, allv | (fav.v - frozenset(x for x in fav.v if x.startswith('F:'))))
         fav = self.ev(f, env, ctx)
         self.sites.append(Site('call', node, fr.qual, ctx, ctx, val=fav, depth=fr.depth, callee=unparse(f), args=args))
